@@ -503,6 +503,20 @@ def scanner_texts(maxlen):
     return out
 
 
+def scanner_texts_wide(rng, count):
+    """quoted regex literals as SOURCE TEXT whose characters take 1 to 4 bytes: whatever the scanner does with an
+    escaped quote, a class or a backslash, every other character must reach the engine byte for byte"""
+    out = []
+    units = [b"a", b"\"", b"\\\"", b"\\\\", b"[", b"]", b"^", b"\\d", "\u00e9".encode(), "\u20ac".encode(),
+             "\U0001F600".encode(), "\u00ff".encode(), "\u0100".encode(), b"\\" + "\u00e9".encode()]
+    vals = [b"", b"a", "\u00e9".encode(), b"\"" + "\u00e9".encode() + b"\"", "a\u20ac".encode(), b"\xe9", b"\xc3",
+            "\U0001F600".encode(), b"\"a"]
+    for _ in range(count):
+        t = b"".join(rng.choice(units) for _ in range(rng.choice([1, 2, 3, 4, 5, 6, 8])))
+        out.append(rcase(QUOTED, t, None, None, vals))
+    return out
+
+
 def gen(rng, tier):
     thorough = tier == "thorough"
     out = []
@@ -510,6 +524,7 @@ def gen(rng, tier):
     out += wildcard_source_texts(5 if thorough else 4)
     out += wildcard_random(rng, 20000 if thorough else 1500)
     out += scanner_texts(6 if thorough else 5)
+    out += scanner_texts_wide(rng, 20000 if thorough else 1500)
     out += regex_from_ast(rng, 100000 if thorough else 5000)
     out += regex_malformed(rng, 20000 if thorough else 1200)
     return out
